@@ -596,7 +596,15 @@ def s16b_dispersion_sign(ctx):
 # indicator instance -> positions of (upper, middle, lower) in the values array
 BANDS_BY_CONSTRUCTION = {
     'indicators::bollinger_bands::BollingerBandsInstance': (0, 1, 2),
+    # values = [source, upper, lower]; the middle line (the moving average) is not among the reported values
+    'indicators::keltner_channel::KeltnerChannelInstance': (1, None, 2),
 }
+# averages all of whose weights are non-negative (C15 lists them): fed non-negative values they return a non-negative value.
+# HMA, DEMA, TEMA, LinReg (negative weights) and a configurable `M::Instance` (any kind) are NOT in this table.
+NONNEG_WEIGHT_AVERAGES = ('methods::sma::SMA', 'methods::wma::WMA', 'methods::swma::SWMA', 'methods::trima::TRIMA', 'methods::ema::EMA',
+                          'methods::ema::DMA', 'methods::ema::TMA', 'methods::rma::RMA', 'methods::wsma::WSMA')
+# OHLCV quantities that are a maximum minus a minimum over a set containing both
+NONNEG_CANDLE_QUANTITIES = ('tr', 'tr_close')
 
 
 def s16c_band_order(ctx):
@@ -638,7 +646,7 @@ def s16c_band_order(ctx):
             key = short + '|band-order'
             r.inst(key)
             done = True
-            U, M_, L = vals[up], vals[mid], vals[lowp]
+            U, M_, L = vals[up], (vals[mid] if mid is not None else None), vals[lowp]
 
             def decomp(t):
                 """fma(x, s, m) / m + x*s / m - x*s  ->  (x, s, m, sign)"""
@@ -657,7 +665,7 @@ def s16c_band_order(ctx):
                     return _norm(t[3][2]), _norm(t[3][3]), _norm(t[2]), (1 if t[1] == 'Add' else -1), t[3][2], t[3][3]
                 return None
             du, dl = decomp(U), decomp(L)
-            if not du or not dl or du[3] != 1 or dl[3] != -1 or du[:3] != dl[:3] or du[2] != _norm(M_):
+            if not du or not dl or du[3] != 1 or dl[3] != -1 or du[:3] != dl[:3] or (M_ is not None and du[2] != _norm(M_)):
                 r.violate(key + '|shape', '%s::next no longer builds its bands as middle + k*x / middle - k*x around the value it reports as middle' % short, b.file, b.term_line(bi))
                 continue
             x_tree, s_tree = du[4], du[5]
@@ -670,6 +678,14 @@ def s16c_band_order(ctx):
                 for d in DISPERSION:
                     if d in xs[4]:
                         x_ok = True
+            if not x_ok and xs[0] == 'call' and xs[4].endswith('Method>::next') and len(xs[2]) == 2 \
+                    and any(('<%s as ' % a) in xs[4] for a in NONNEG_WEIGHT_AVERAGES):
+                # an average with non-negative weights of a non-negative quantity
+                fed = xs[2][1]
+                while fed[0] in ('ref', 'deref'):
+                    fed = fed[1]
+                if (fed[0] == 'call' and fed[4].rsplit('::', 1)[-1] in NONNEG_CANDLE_QUANTITIES and 'OHLCV' in fed[4]) or nonneg(fed, facts, adt, f):
+                    x_ok = True
             x_ok = x_ok or nonneg(x_tree, facts, adt, f)
             # s: configuration factor >= 0
             chain = _field_chain(s_tree)
